@@ -536,10 +536,16 @@ pub fn cycles(seed: u64, count: usize) -> Report {
         let v = if rng.chance(2, 3) { Version::V3 } else { Version::V4 };
         let (buf, mut c) = fresh(v, 4096);
         // prefix: some persistent content, fill levels around whole-sector multiples
+        // (one case in three uses mini-stream sizes only: holes below surviving small streams)
+        let small_only = rng.chance(1, 3);
         let nprefix = rng.below(12) as usize;
         let mut desc = format!("{:?} prefix[", v);
         for k in 0..nprefix {
-            let sz = *rng.pick(&[1usize, 63, 64, 65, 448, 512, 576, 1000, 4095, 4096, 4097, 9000]);
+            let sz = if small_only {
+                *rng.pick(&[1usize, 63, 64, 65, 200, 448, 512, 576, 1000, 2816, 3840])
+            } else {
+                *rng.pick(&[1usize, 63, 64, 65, 448, 512, 576, 1000, 4095, 4096, 4097, 9000])
+            };
             let mut s = c.create_stream(format!("/p{}", k)).unwrap();
             s.write_all(&vec![5u8; sz]).unwrap();
             desc.push_str(&format!("{} ", sz));
@@ -559,11 +565,12 @@ pub fn cycles(seed: u64, count: usize) -> Report {
         }
         // cycle: a list of (create+write sizes) then removal of all of them
         let ncyc = 1 + rng.below(5) as usize;
+        let ncyc = if small_only { ncyc.max(3) } else { ncyc };
         let sizes: Vec<usize> = (0..ncyc)
-            .map(|_| *rng.pick(&[0usize, 1, 64, 100, 512, 513, 2000, 4095, 4096, 5000, 20000]))
+            .map(|_| if small_only { *rng.pick(&[1usize, 64, 100, 128, 512, 513, 2000]) } else { *rng.pick(&[0usize, 1, 64, 100, 512, 513, 2000, 4095, 4096, 5000, 20000]) })
             .collect();
-        let use_storage = rng.chance(1, 3);
-        let overwrite = rng.chance(1, 3);
+        let use_storage = !small_only && rng.chance(1, 3);
+        let overwrite = !small_only && rng.chance(1, 3);
         // removal order of the cycle's streams: fixed per case, any permutation
         let mut order: Vec<usize> = (0..ncyc).collect();
         if rng.chance(2, 3) {
@@ -574,7 +581,7 @@ pub fn cycles(seed: u64, count: usize) -> Report {
         }
         // a persistent small stream that each repetition rewrites from offset 0 with a large
         // write through a fresh handle (mini -> regular migration) and then shrinks back
-        let rewrite_persistent = rng.chance(1, 2);
+        let rewrite_persistent = !small_only && rng.chance(1, 2);
         if rewrite_persistent {
             let mut s = c.create_stream("/keep").unwrap();
             s.write_all(&vec![3u8; *rng.pick(&[100usize, 64, 700, 4000])]).unwrap();
@@ -583,7 +590,13 @@ pub fn cycles(seed: u64, count: usize) -> Report {
         let big_len = *rng.pick(&[4096usize, 5000, 9000]); // fixed per case: every repetition is the same cycle
         desc.push_str(&format!("] cycle{:?} remove-order{:?} storage={} overwrite={} rewrite_persistent={}", sizes, order, use_storage, overwrite, rewrite_persistent));
         let mut lens = Vec::new();
-        for _rep in 0..5 {
+        let mut roots: Vec<u64> = Vec::new(); // size of the mini stream after each repetition
+        for rep in 0..80 {
+            // five repetitions; more (up to 80) only while the mini stream keeps growing, which
+            // predicts growth of the file once a whole sector of mini sectors has leaked
+            if rep >= 5 && !(roots[rep - 1] > roots[1] && lens[rep - 1] == lens[1]) {
+                break;
+            }
             if use_storage {
                 c.create_storage("/cy").unwrap();
             }
@@ -624,6 +637,10 @@ pub fn cycles(seed: u64, count: usize) -> Report {
                 }
             }
             lens.push(buf.len());
+            roots.push(c.root_entry().len());
+        }
+        if lens.len() > 5 {
+            rep.note("cases_with_extra_repetitions", 1);
         }
         rep.evaluations += 1;
         rep.distinct.insert(desc.clone());
@@ -937,9 +954,28 @@ fn write_workload(v: Version, maxbuf: usize, fail_at: &[u64]) -> (u64, Vec<Strin
         ("/a", vec![(0, 100), (1, 0), (0, 3000), (1, 0), (0, 2000), (1, 0), (2, 50), (1, 0), (2, 6000), (0, 10), (1, 0)]),
         ("/d/b", vec![(0, 5000), (1, 0), (3, 100), (0, 700), (1, 0), (2, 100), (1, 0)]),
         ("/d/c", vec![(0, 64), (0, 64), (1, 0), (2, 0), (0, 4096), (1, 0)]),
+        // two large streams that are released below (with retry) so that later streams reuse their sectors
+        ("/rel1", vec![(0, 4096), (1, 0)]),
+        ("/rel2", vec![(0, 5000), (1, 0)]),
+        ("/RELEASE", vec![]),
+        // enough new data to drain the whole free list (4096 + 5000 bytes were released)
+        ("/n1", vec![(0, 4096), (1, 0)]),
+        ("/n2", vec![(0, 4096), (1, 0)]),
+        ("/n3", vec![(0, 300), (1, 0)]),
+        ("/n4", vec![(0, 4096), (1, 0)]),
+        ("/n5", vec![(0, 5000), (1, 0)]),
     ];
+    // content each stream had when its last flush returned Ok and its handle was dropped
+    let mut finals: Vec<(String, Vec<u8>)> = Vec::new();
     let mut tag = 0u8;
     for (path, steps) in plan.drain(..) {
+        if path == "/RELEASE" {
+            // give the space back: truncate through a handle, remove by path; a failed call is retried
+            let _ = retry(&mut || comp.open_stream("/rel1").and_then(|mut h| h.set_len(0)));
+            let _ = retry(&mut || comp.remove_stream("/rel2"));
+            finals.retain(|(p, _)| p != "/rel1" && p != "/rel2");
+            continue;
+        }
         let mut stream = None;
         for _ in 0..3 {
             match comp.create_stream(path) {
@@ -955,7 +991,11 @@ fn write_workload(v: Version, maxbuf: usize, fail_at: &[u64]) -> (u64, Vec<Strin
             None => continue,
         };
         let mut t = Tracked { path: path.to_string(), exp: Some(Vec::new()), cur: 0 };
+        let mut clean = false; // last step was a flush that returned Ok
         for (kind, n) in steps {
+            if kind != 1 {
+                clean = false;
+            }
             match kind {
                 0 => {
                     tag = tag.wrapping_add(1);
@@ -987,6 +1027,7 @@ fn write_workload(v: Version, maxbuf: usize, fail_at: &[u64]) -> (u64, Vec<Strin
                             break;
                         }
                     }
+                    clean = okf;
                     if okf {
                         if let Some(e) = &t.exp {
                             // a fresh handle must read back every accepted byte
@@ -1029,6 +1070,26 @@ fn write_workload(v: Version, maxbuf: usize, fail_at: &[u64]) -> (u64, Vec<Strin
                         t.cur = n;
                     }
                 }
+            }
+        }
+        drop(s);
+        if clean {
+            if let Some(e) = t.exp.take() {
+                finals.push((t.path.clone(), e));
+            }
+        }
+    }
+    // durable means durable: whatever was flushed successfully is still there after everything
+    // that happened to OTHER streams since (releases, retries, reuse of freed sectors)
+    for (p, e) in finals.iter() {
+        if let Ok(mut fh) = comp.open_stream(p) {
+            let mut got = Vec::new();
+            if fh.read_to_end(&mut got).is_ok() && got != *e {
+                let d = got.iter().zip(e.iter()).position(|(x, y)| x != y);
+                bad.push(format!(
+                    "{}: flushed successfully, but at the end of the workload a fresh handle reads {} bytes (expected {}), first difference at {:?}",
+                    p, got.len(), e.len(), d
+                ));
             }
         }
     }
